@@ -122,6 +122,7 @@ type driver struct {
 	storm     int
 	forged    int
 	nonDHCP   int
+	oldH      *dhcp.Handler // handler that was replaced by "spawn" and is not closed yet ("closeold")
 	failTemp  int       // number of coming writes the connection refuses with a temporary error (action "tempfail")
 	tempHit   bool      // a write was refused during the current step
 	ackFile   []FileRec // lease file as it was when the last DHCPACK of the step was written to the connection
@@ -150,6 +151,10 @@ func modeOf(s string) dhcp.Mode {
 func (d *driver) newSession() error {
 	if d.s != nil {
 		old, oh := d.s, d.h
+		if d.oldH != nil {
+			d.oldH.Close()
+			d.oldH = nil
+		}
 		if oh != nil {
 			oh.Close()
 		}
@@ -274,6 +279,12 @@ func prlOpt(prl string) []vh.DHCP4Opt {
 		return []vh.DHCP4Opt{{Code: 55, Data: []byte{1, 3, 6, 15}}}
 	case "rm":
 		return []vh.DHCP4Opt{{Code: 55, Data: []byte{3, 1, 6, 15}}}
+	case "m": // asks for the mask, not for the router
+		return []vh.DHCP4Opt{{Code: 55, Data: []byte{1, 6, 15}}}
+	case "r": // asks for the router, not for the mask
+		return []vh.DHCP4Opt{{Code: 55, Data: []byte{3, 6, 15}}}
+	case "n": // asks for neither
+		return []vh.DHCP4Opt{{Code: 55, Data: []byte{6, 15, 12}}}
 	}
 	return nil
 }
@@ -735,6 +746,22 @@ func (d *driver) step(a action) (rec map[string]interface{}) {
 		// a quiet period longer than the validity of an offer (5 s) passes (verif hook, no wall clock wait)
 		d.h.VerifAgeOffers(ageStep)
 		d.ages++
+	case "spawn":
+		// hot swap: the replacement handler is built on the same lease file and session while the old one is still open
+		d.settle()
+		if d.oldH != nil {
+			d.oldH.Close()
+		}
+		d.oldH = d.h
+		if err := d.newHandler(); err != nil {
+			perr = "new: " + err.Error()
+		}
+	case "closeold":
+		// the handler replaced by the last "spawn" is closed now (Close must not touch the lease file)
+		if d.oldH != nil {
+			d.oldH.Close()
+			d.oldH = nil
+		}
 	case "reload":
 		// a new handler on the same lease file and the same session
 		d.settle()
